@@ -914,3 +914,43 @@ def rule_a7_nested(ctx):
                    'the prologue `if %s:` hands the contents of ANY segment to the collector, including constructed ones: a nested '
                    'constructed segment comes back as its raw inner TLVs (headers included) instead of its reassembled value' % t
                    if not (own or prim) else 'guard `%s`' % t, node=first)
+
+
+def rule_a6_optdef(ctx):
+    """A6.optdef: wherever the position logic treats a component as "may be absent", OPTIONAL and DEFAULT are
+    treated alike (both may be omitted from an encoding)."""
+    sites = []
+    for q in ('codec.ber.decoder.ConstructedPayloadDecoderBase.valueDecoder', 'codec.ber.decoder.ConstructedPayloadDecoderBase.indefLenValueDecoder'):
+        f = ctx.func(q)
+        for n in walk_own(f.node):
+            if isinstance(n, (ast.If,)) and ('namedTypes[idx].isOptional' in norm(n.test) or 'namedTypes[idx].isDefaulted' in norm(n.test)):
+                sites.append((f, n.test))
+    nt = ctx.cls('type.namedtype.NamedTypes')
+    for name, defs in nt.attrs.items():
+        for d in defs:
+            if d[0] != 'func':
+                continue
+            f = d[1]
+            for n in walk_own(f.node):
+                if isinstance(n, (ast.BoolOp,)) and ('.isOptional' in norm(n) or '.isDefaulted' in norm(n)) and \
+                        not isinstance(getattr(n, 'parent', None), ast.BoolOp):
+                    sites.append((f, n))
+                elif isinstance(n, ast.If) and not isinstance(n.test, ast.BoolOp) and ('.isOptional' in norm(n.test) or '.isDefaulted' in norm(n.test)):
+                    sites.append((f, n.test))
+    f = ctx.func('type.univ.SequenceAndSetBase.isValue')
+    for n in walk_own(f.node):
+        if isinstance(n, ast.If) and ('.isOptional' in norm(n.test) or '.isDefaulted' in norm(n.test)):
+            sites.append((f, n.test))
+    if len(sites) < 8:
+        raise AnalysisError('A6.optdef found only %d may-be-absent tests' % len(sites))
+    seen = set()
+    for f, e in sites:
+        t = norm(e)
+        if (f.short, t) in seen:
+            continue
+        seen.add((f.short, t))
+        both = '.isOptional' in t and '.isDefaulted' in t
+        ctx.ob('A6.optdef', f, t[:80], both,
+               'this may-be-absent test looks at only one of isOptional / isDefaulted: DEFAULT components are omitted from encodings '
+               'just like absent OPTIONAL ones, so position / completeness logic that forgets one of them mis-places or rejects valid input'
+               if not both else 'both kinds considered', node=e)
